@@ -10,7 +10,7 @@ import tempfile
 import traceback
 
 
-def run_backend(kind):
+def run_backend(kind, workers=2):
     import labtech
     import replay.universe as U
     logging.getLogger('labtech').setLevel(logging.CRITICAL)
@@ -18,7 +18,7 @@ def run_backend(kind):
     ctx = {'shared': 1, 'a': 'ctx-a', 'b': 'ctx-b', 'other': object}
     tasks = [U.EnvProbe('a'), U.EnvProbe('b')]
     with tempfile.TemporaryDirectory() as d:
-        lab = labtech.Lab(storage=d, runner_backend=kind, max_workers=2, context=ctx)
+        lab = labtech.Lab(storage=d, runner_backend=kind, max_workers=workers, context=ctx)
         res = lab.run_tasks(tasks, disable_progress=True, disable_top=True)
         # a re-execution of already cached tasks must see the same environment
         ctasks = [U.K2('a'), U.K2('b')]
@@ -45,6 +45,34 @@ def run_backend(kind):
                 return f'spawn: child shares the caller\'s memory: module global mutated by the caller is {r["mark"]} in the child (a freshly started interpreter would see 0)'
     if len({res[t]['pid'] for t in tasks}) != len(tasks) and kind != 'serial':
         return f'{kind}: two tasks ran in the same process'
+    return None
+
+
+def changed_context_same_objects():
+    """The SAME task objects executed again under a different Lab context (and under another backend) must see the new
+    context: whatever an earlier in-process run left on the objects does not count."""
+    import labtech
+    from replay.universe import X
+    logging.getLogger('labtech').setLevel(logging.CRITICAL)
+    for backends in (['serial', 'serial'], ['serial', 'fork'], ['fork', 'serial'], ['serial', 'spawn']):
+        a = X('a')
+        top = X('top', (a,))
+        for k, backend in enumerate(backends):
+            ctx = {'gen': k + 1}
+            with tempfile.TemporaryDirectory() as d:
+                lab = labtech.Lab(storage=d, runner_backend=backend, context=ctx, max_workers=2)
+                res = lab.run_tasks([top], disable_progress=True, disable_top=True)
+            want = ('top', k + 1, (('a', k + 1, ()),))
+            if res.get(top) != want:
+                return f'{"->".join(backends)}: call {k + 1} ran with Lab context {ctx} but the tasks computed {res.get(top)!r} (expected {want!r}): a context from an earlier run was used'
+        # a context the user attached by hand before the run does not survive either
+        b = X('b')
+        b.set_context({'gen': 'stale'})
+        with tempfile.TemporaryDirectory() as d:
+            lab = labtech.Lab(storage=d, runner_backend=backends[0], context={'gen': 7}, max_workers=2)
+            res = lab.run_tasks([b], disable_progress=True, disable_top=True)
+        if res.get(b) != ('b', 7, ()):
+            return f'{backends[0]}: a task object that already carried a context ran with it instead of filter_context(lab.context): {res.get(b)!r}'
     return None
 
 
@@ -82,19 +110,19 @@ def main():
     a = ap.parse_args()
     res = dict(reproduced=False, level='api')
     try:
-        for kind in ('spawn', 'fork', 'serial'):
-            why = run_backend(kind)
+        for kind, workers in (('spawn', 2), ('fork', 2), ('serial', 2), ('fork', 1), ('spawn', 1), ('fork', None)):
+            why = run_backend(kind, workers)
             if why:
-                res = dict(reproduced=True, level='api', backend=kind, summary=why)
+                res = dict(reproduced=True, level='api', backend=kind, summary=f'max_workers={workers}: ' + why)
                 break
         if not res.get('reproduced'):
-            why = context_leak()
+            why = context_leak() or changed_context_same_objects()
             if why:
                 res = dict(reproduced=True, level='api', summary=why)
     except Exception:
         res = dict(reproduced=False, error=traceback.format_exc()[-1500:])
     if not a.obligation:
-        print(json.dumps([dict(name='c16:environment-probe', bounded=True, bound='3 backends x 2 probe tasks + bust_cache re-run of cached probes',
+        print(json.dumps([dict(name='c16:environment-probe', bounded=True, bound='3 backends x max_workers in {1, 2, None} x 2 probe tasks + bust_cache re-run of cached probes; context-leak probe; 4 two-call histories over the same task objects with a changed Lab context',
                                violation=bool(res.get('reproduced')), witness=[res] if res.get('reproduced') else [])], default=str))
     else:
         print(json.dumps(res, default=str))
